@@ -10,6 +10,8 @@ whose rows carry at most one *flow* effect out of
 * `tempo t`  — `FX_SPEED` with parameter `≥ 0x20`, `FX_S3M_BPM`, `FX_IT_BPM` with
   parameter `≥ 0x20` (absolute tempo);
 * `delay d`  — `FX_EXTENDED` / `EX_PATT_DELAY` (`EEx`, S3M `SEx`, IT `S6x`);
+* `rowdelay x` — `FX_IT_ROWDELAY` (IT `SEx`, "pattern delay for x rows"): the row is entered
+  `1 + x` times, each time for `speed` ticks at the *running* speed;
 * `jump j`   — `FX_JUMP`.
 
 Two **independent** interpreters of that vocabulary are modelled, mirroring
@@ -33,7 +35,7 @@ without pattern breaks), pattern loops (`inside_loop`, `loop_active_num`),
 `line_jump`, `row_limit` (a pattern has at most 256 rows and
 `row_count_total` restarts at every order), global volume, ST2.6 / FAR / ULT
 tempo modes, `QUIRK_PROTRACK`'s delay+break rule (needs two flow effects on a
-row), IT row delay (`SEx`).
+row), IT tempo slides (`T0x` / `T1x`).
 -/
 namespace Xmp.LinFlow
 
@@ -43,6 +45,7 @@ inductive Fx where
   | tempo (t : Nat)
   | delay (d : Nat)
   | jump (j : Nat)
+  | rowdelay (x : Nat)
   deriving Repr, DecidableEq, Inhabited
 
 /-- The loaded module, as far as flow is concerned. -/
@@ -129,6 +132,14 @@ def cntAt (c : List (List Nat)) (ord row : Nat) : Nat := (c.getD ord []).getD ro
 def cntInc (c : List (List Nat)) (ord row : Nat) : List (List Nat) :=
   c.set ord ((c.getD ord []).set row (cntAt c ord row + 1))
 
+/-- `FX_IT_ROWDELAY` in the scan: `scan_cnt[ord][row] = MIN(scan_cnt[ord][row] + (p1 & 0x0f), 255)`
+(scan.c:539-544); nothing for the other effects -/
+def cntBump (c : List (List Nat)) (ord row : Nat) : Fx → List (List Nat)
+  | .rowdelay x =>
+    if x % 16 = 0 then c
+    else c.set ord ((c.getD ord []).set row (min (cntAt c ord row + x % 16) 255))
+  | _ => c
+
 /-- `time + time_factor * frame_count * base_time / bpm` -/
 def ScanSt.now (st : ScanSt) : Nat := st.time + st.frameCount * tick st.bpm
 
@@ -148,6 +159,7 @@ def applyFx (fx : Fx) (st : ScanSt) : ScanSt :=
     let fc := st.frameCount + st.rowCount * st.speed
     { st with time := st.time + fc * tick st.bpm, frameCount := 0, rowCount := 0, bpm := t }
   | .delay d => { st with frameCount := st.frameCount + d * st.speed }
+  | .rowdelay x => { st with frameCount := st.frameCount + (x % 16) * st.speed }
   | _ => st
 
 def Fx.delayOf : Fx → Nat
@@ -170,7 +182,7 @@ def scanRows (ord : Nat) : List Fx → Nat → ScanSt → RowsOut
     if cntAt st.cnt ord row ≠ 0 then
       .endMod { st with rowCount := st.rowCount - 1 } row
     else
-      let st1 := { st with cnt := cntInc st.cnt ord row, osv := 0, anyValid := true }
+      let st1 := { st with cnt := cntBump (cntInc st.cnt ord row) ord row fx, osv := 0, anyValid := true }
       let st2 := applyFx fx st1
       let r : RowRec := { ord := ord, row := row, speed := st2.speed, bpm := st2.bpm,
                           delay := fx.delayOf, t0 := st.rowStart }
@@ -330,6 +342,9 @@ structure PlaySt where
   delay : Nat := 0
   pbreak : Bool := false
   jump : Option Nat := none
+  /-- `flow.rowdelay`, `flow.rowdelay_set & ROWDELAY_ON` (IT row delay) -/
+  rowdelay : Nat := 0
+  rowdelaySet : Bool := false
   loopCount : Nat := 0
   endPoint : Int := 0
   /-- Σ frame_time of the frames rendered so far (exact) -/
@@ -374,7 +389,9 @@ def PlayEnv.nextRow (e : PlayEnv) (s : PlaySt) : Option PlaySt :=
     let nord := s.jump.getD (s.ord + 1)
     e.enter { s with pbreak := false, jump := none } nord
   else
-    let s := { s with row := s.row + 1 }
+    -- `if (f->rowdelay == 0) { p->row++; f->rowdelay_set = 0; } else f->rowdelay--;`
+    let s := if s.rowdelay = 0 then { s with row := s.row + 1, rowdelaySet := false }
+             else { s with rowdelay := s.rowdelay - 1 }
     if s.row ≥ (e.m.rowsOf (e.m.patOf s.ord)).length then e.enter s (s.ord + 1) else some s
 
 /-- `check_end_of_module` -/
@@ -392,6 +409,7 @@ def readFx (fx : Fx) (s : PlaySt) : PlaySt :=
   | .tempo t => { s with bpm := if t < 20 then 20 else t }
   | .delay d => { s with delay := d }
   | .jump j => { s with pbreak := true, jump := some j }
+  | .rowdelay x => if s.rowdelaySet then s else { s with rowdelay := x, rowdelaySet := true }
   | .none => s
 
 def PlayEnv.fxAt (e : PlayEnv) (ord row : Nat) : Fx := (e.m.rowsOf (e.m.patOf ord)).getD row .none
@@ -485,10 +503,13 @@ def rowRecs (fs : List PlaySt) : List RowRec :=
 
 /-! ## decidable hypotheses of the simulation theorem (`C18_scan_eq_play_seq`), evaluated by the driver -/
 
-/-- effect parameters inside the vocabulary: speed ≥ 1, tempo ≥ 20 (`XMP_MIN_BPM`) -/
+/-- effect parameters inside the class of the simulation theorems: speed ≥ 1, tempo ≥ 20
+(`XMP_MIN_BPM`), no IT row delay (modelled in both interpreters and tied to the C, not yet in the
+theorems) -/
 def Fx.wfb : Fx → Bool
   | .speed s => decide (1 ≤ s)
   | .tempo t => decide (20 ≤ t)
+  | .rowdelay _ => false
   | _ => true
 
 /-- the module class: patterns non-empty with in-vocabulary parameters, initial speed ≥ 1 and tempo ≥ 20,
